@@ -511,7 +511,8 @@ class Channel(BaseChannel):
         self.set_state(self.CLOSING)
         if not self._connection.is_closed:
             try:
-                self.write_frame(specification.Channel.CloseOk())
+                self._connection.write_frame(self.channel_id,
+                                             specification.Channel.CloseOk())
             except AMQPError:
                 pass
         self.remove_consumer_tag()
